@@ -42,7 +42,7 @@ metas! {
     S1A: "sp", "a", Level::ERROR, Kind::SPAN; S3A: "sp", "a", Level::INFO, Kind::SPAN; S5A: "sp", "a", Level::TRACE, Kind::SPAN;
     S1B: "sp", "b", Level::ERROR, Kind::SPAN; S3B: "sp", "b", Level::INFO, Kind::SPAN; S4B: "sp", "b", Level::DEBUG, Kind::SPAN; S5B: "sp", "b", Level::TRACE, Kind::SPAN;
     O1A: "other", "a", Level::ERROR, Kind::SPAN; O3A: "other", "a", Level::INFO, Kind::SPAN; O5A: "other", "a", Level::TRACE, Kind::SPAN;
-    O2B: "other", "b", Level::WARN, Kind::SPAN; O5B: "other", "b", Level::TRACE, Kind::SPAN; O5X: "other", "a::x", Level::TRACE, Kind::SPAN;
+    O2B: "other", "b", Level::WARN, Kind::SPAN; O4B: "other", "b", Level::DEBUG, Kind::SPAN; O5B: "other", "b", Level::TRACE, Kind::SPAN; O5X: "other", "a::x", Level::TRACE, Kind::SPAN;
 }
 
 fn mdesc(m: &Metadata<'_>) -> String {
@@ -299,7 +299,8 @@ pub fn bases() -> Vec<FilterD> {
         v.push(Lv(r));
     }
     // (incl. duplicate / conflicting entries, later one more verbose and less verbose)
-    for s in ["a=info", "b=trace,a=error", "debug,b=off", "a::x=trace,a=warn", "a=info,a=trace", "a=trace,a=error", "error,debug"] {
+    // (the last four carry field names: string-parsed Targets may do that)
+    for s in ["a=info", "b=trace,a=error", "debug,b=off", "a::x=trace,a=warn", "a=info,a=trace", "a=trace,a=error", "error,debug", "a[{k}]=trace,a=warn", "a[{k}]=off,a=debug", "a[{nosuch}]=trace,a=warn", "[{k,f}]=debug,error"] {
         v.push(Tg(s.into()));
     }
     for s in ["info", "a=debug,b=warn", "warn,a::x=trace", "off", "a=warn,a=trace", "error,trace"] {
@@ -308,6 +309,9 @@ pub fn bases() -> Vec<FilterD> {
     v.push(EnvSp);
     v.push(Env("[sp{k=1}]=debug".into()));
     v.push(Env("error,[{k=1}]=trace".into()));
+    // target-qualified span directives: the target only selects which span opens the scope
+    v.push(Env("error,a[sp]=debug".into()));
+    v.push(Env("a[sp]=trace,b=warn".into()));
     for (p, h) in [(0u8, 5u8), (1, 3), (2, 5), (3, 5)] {
         v.push(Fn(p, None));
         v.push(Fn(p, Some(h)));
@@ -540,11 +544,21 @@ pub fn run(args: &Args) -> i32 {
 /// span rejects it when the span's level is above the directive's.
 fn is_f16(case: &serde_json::Value, msg: &str) -> bool {
     let s = case.to_string();
-    if !s.contains("[sp{k=1}]=debug") {
-        return false;
-    }
-    let direct = msg.starts_with("callsite_enabled = always for [span sp ") && msg.contains(" TRACE] but enabled() = false");
-    // seen through a `not` combinator the same inconsistency appears mirrored
-    let mirrored = s.contains("\"Not\"") && msg.starts_with("callsite_enabled = never for [span sp ") && msg.contains(" TRACE] but enabled() = true");
-    direct || mirrored
+    // span directives below TRACE in the pool: (text, target prefix the directive is qualified with)
+    let dirs: [(&str, &str); 2] = [("[sp{k=1}]=debug", ""), ("a[sp]=debug", "a")];
+    // the span the message is about: "... for [span sp <target> TRACE] but ..."
+    let about = |prefix: &str| -> Option<String> {
+        let rest = msg.strip_prefix(prefix)?.strip_prefix("[span sp ")?;
+        let (target, tail) = rest.split_once(' ')?;
+        tail.starts_with("TRACE] but enabled() = ").then(|| target.to_string())
+    };
+    dirs.iter().any(|(d, tprefix)| {
+        if !s.contains(d) {
+            return false;
+        }
+        let direct = about("callsite_enabled = always for ").map_or(false, |t| t.starts_with(tprefix) && msg.contains("enabled() = false"));
+        // seen through a `not` combinator the same inconsistency appears mirrored
+        let mirrored = s.contains("\"Not\"") && about("callsite_enabled = never for ").map_or(false, |t| t.starts_with(tprefix) && msg.contains("enabled() = true"));
+        direct || mirrored
+    })
 }
